@@ -53,6 +53,11 @@ func (msg *Msg) Decode(data interface{}) error {
 		log.Debugf("Msg.Decode error: %v, data: %s", err, common.ToHex(msg.Content))
 		return ErrRlpDecode
 	}
+	// exactly one value, like rlp.DecodeBytes: bytes after the value are not part of any message
+	if reader.Len() > 0 {
+		log.Debugf("Msg.Decode error: %d trailing bytes, data: %s", reader.Len(), common.ToHex(msg.Content))
+		return ErrRlpDecode
+	}
 	return nil
 }
 
